@@ -2477,7 +2477,13 @@ impl<F: ConfigField + Default> ConfigField for Option<F> {
     }
 
     fn set(&mut self, key: &str, value: &str) -> Result<()> {
-        self.get_or_insert_with(Default::default).set(key, value)
+        let was_none = self.is_none();
+        let result = self.get_or_insert_with(Default::default).set(key, value);
+        if result.is_err() && was_none {
+            // a rejected value must not turn an unset option into `Some(default)`
+            *self = None;
+        }
+        result
     }
 
     fn reset(&mut self, key: &str) -> Result<()> {
